@@ -18,6 +18,8 @@ def strategy(tp):
         "split": st.lists(st.booleans(), min_size=0, max_size=6),   # start a new Via field line before element i
         "sep": st.sampled_from([", ", ",", " , ", ",\t"]),
         "method": st.sampled_from(["GET", "GET", "POST", "HEAD", "OPTIONS"]),
+        # the looping request may hit a cached object: fresh (served from cache: not forwarded) or stale (needs revalidation)
+        "cached": st.sampled_from(["no", "no", "fresh", "stale"]),
     })
     mf = st.fixed_dictionaries({
         "kind": st.just("maxfwd"),
@@ -29,7 +31,7 @@ def strategy(tp):
 
 
 def setup(ctx):
-    env = ProxyEnv(ctx, cache_mem="0 MB")
+    env = ProxyEnv(ctx, cache_mem="16 MB")
     # learn the Via element this instance emits
     path = "/" + env.ns()
     env.origin.script(path, {"status": 200, "body_b64": ""})
@@ -80,18 +82,27 @@ def execute(env, sc):
             lines.append(cur)
         hdrs = [("Via", sc["sep"].join(l)) for l in lines]
         body = b"x" if sc["method"] == "POST" else None
+        cached = sc.get("cached", "no") if sc["method"] in ("GET", "HEAD") else "no"
+        before = 0
+        if cached != "no":
+            env.origin.script(path, {"status": 200, "headers": [["Cache-Control", "max-age=100"]], "body_tag": path, "body_len": 20})
+            fetch(env, path)
+            before = env.origin.arrival_count(path)
+            if cached == "stale":
+                env.squid.set_clock(env.clock.offset + 1000)
+            r.label("loop-request-hits-" + cached + "-entry")
         m = fetch(env, path, hdrs, method=sc["method"], body=body)
         if not usable(m, r):
             env.health(r)
             return r
-        arrived = env.origin.arrival_count(path) > 0
+        arrived = env.origin.arrival_count(path) > before
         r.label("via-own-" + sc["own"])
         if sc["own"] in ("verbatim", "other-version", "http-prefixed-version"):
             if len(elems) > 1:
                 r.nontrivial = True
             if arrived:
-                r.fail("loop-forwarded:own-via-element-" + sc["own"], "Via lines %r reached the origin" % (hdrs,))
-            elif m.status < 400:
+                r.fail("loop-forwarded:own-via-element-" + sc["own"] + (":revalidating-stale-entry" if cached == "stale" else ""), "Via lines %r reached the origin" % (hdrs,))
+            elif m.status < 400 and cached == "no":
                 r.fail("loop-not-answered-with-error", "status %s" % m.status)
         elif sc["own"] == "absent":
             r.label("lookalikes-forwarded" if arrived else "lookalikes-refused")   # not part of the statement: counted only
